@@ -68,9 +68,10 @@ def record_plot(op, df, sig, fs, thr, a, b, flags):
     pcols = [k.replace('_threshold', '') for k in thr if k != 'min_n_cycles'] if op in ('summary', 'object', 'param') else []
     pcols = [c for c in pcols if c in df.columns]
     case = {'op': op, 'n': int(n), 'a': -1 if a is None else int(a), 'b': -1 if b is None else int(b), 'peakC': bool(peakC),
-            't': table_rows(df, pcols), 'raised': '', 'interp': bool(flags.get('interp', True)), 'has_burst': False, 'H': [], 'panels': [],
+            't': table_rows(df, pcols), 'raised': '', 'interp': bool(flags.get('interp', True)), 'has_burst': False, 'H': [], 'Hy': [], 'panels': [],
             'markers': {k: {'shown': False, 'samples': [], 'y': [], 'on_grid': True} for k in KINDS}, 'sig': []}
     plotted = np.asarray(sig, dtype=float)
+    drawn_sig = None
     df_in = df.copy()
     try:
         with warnings.catch_warnings():
@@ -108,6 +109,11 @@ def record_plot(op, df, sig, fs, thr, a, b, flags):
             fig = plt.gcf()
             axes = fig.axes
             ax0 = axes[0]
+            sl = [l for l in ax0.lines if l.get_linestyle() == '-' and l.get_marker() in ('None', None, '') and l.get_label() != 'Bursts']
+            if sl and op != 'param':
+                y_ = np.ma.filled(np.ma.asarray(sl[0].get_ydata(orig=True), dtype=float), np.nan)
+                xs_, okg_ = to_samples(sl[0].get_xdata(orig=True), fs, tfull)
+                drawn_sig = (xs_, list(y_), okg_)
             if op in ('summary', 'object'):
                 burst_line = [l for l in ax0.lines if l.get_label() == 'Bursts']
                 if burst_line:
@@ -117,6 +123,7 @@ def record_plot(op, df, sig, fs, thr, a, b, flags):
                     xs, okg = to_samples(np.asarray(x)[~mask], fs, tfull)
                     case['has_burst'] = True
                     case['H'] = xs
+                    case['Hy'] = [pj.limbs(v) for v in np.ma.filled(np.ma.asarray(y, dtype=float), np.nan)[~mask]]
                     if not okg:
                         case['markers']['centre']['on_grid'] = False
                 if flags.get('only_result', False):
@@ -150,4 +157,13 @@ def record_plot(op, df, sig, fs, thr, a, b, flags):
     finally:
         plt.close('all')
     case['sig'] = [pj.limbs(v) for v in plotted]
+    # the signal as actually DRAWN (when a signal line exists): markers and the highlighted trace must sit on it
+    if drawn_sig is not None:
+        xs, ys, okg = drawn_sig
+        if okg:
+            for s_, y_ in zip(xs, ys):
+                if 0 <= s_ < len(case['sig']):
+                    case['sig'][s_] = pj.limbs(y_)
+        else:
+            case['markers']['centre']['on_grid'] = False
     return case
